@@ -552,6 +552,94 @@ def decode_stat(ev):
     return "%s => %s" % (kind, ret if ret.startswith("err") or ret == "ok" else ret.split(":")[0])
 
 
+# =========================================================================== C06
+def encode_headers(run, cmds):
+    nsh = min(core.NCPU, max(1, len(cmds) // 200))
+    chunks = [cmds[i::nsh] for i in range(nsh)]
+
+    def one(k):
+        inp = os.path.join(run.work, "hdr-in-%d.ndjson" % k)
+        outp = os.path.join(run.work, "hdr-out-%d.ndjson" % k)
+        with open(inp, "w") as f:
+            for c in chunks[k]:
+                f.write(json.dumps(c, separators=(",", ":")) + "\n")
+        r = core.run_tlc("EncodeHeaders", env={"IN": inp, "OUT": outp}, workdir=run.work)
+        res = [json.loads(x) for x in open(outp)] if os.path.exists(outp) else []
+        return r, res
+    import concurrent.futures as cf
+    with cf.ThreadPoolExecutor(core.NCPU) as ex:
+        rs = list(ex.map(one, range(nsh)))
+    out = [None] * len(cmds)
+    for k, (r, res) in enumerate(rs):
+        run.states += r.distinct
+        run.transitions += r.generated
+        if r.error or len(res) != len(chunks[k]):
+            run.tool_errors.append("EncodeHeaders: %s\n%s" % (r.error, r.raw_tail))
+            continue
+        for j, c in enumerate(res):
+            out[k + j * nsh] = c
+    return [c for c in out if c is not None]
+
+
+def header_stat(ev):
+    h = ev.get("hdr", {})
+    kind = h.get("k", "?")
+    if kind == "std":
+        kind = "plus-ufep%d" % h.get("ufep", 9) if h.get("fmt") == 7 else "baseline"
+    if "bad" in h:
+        kind += "-malformed"
+    return "%s => %s" % (kind, ev.get("rc"))
+
+
+@plan("C06")
+def c06(tier, seed):
+    from . import hdrgen
+    run = Run("C06", tier, seed)
+    rng = random.Random(seed)
+    run.model_check("MCHeader", workers=4)
+    thorough = tier == "thorough"
+    cmds = hdrgen.sweeps(rng, thorough)
+    n_sweep = len(cmds)
+    cmds += hdrgen.inheritance(rng, 600 if not thorough else 6000)
+    cmds += hdrgen.randoms(rng, 4000 if not thorough else 60000)
+    enc = encode_headers(run, cmds)
+    run.drive_and_validate(enc, "TraceHeader", sample=3, stat_fn=header_stat)
+    # a decoded picture reports the header it was decoded from and has exactly its width and height
+    H = Hist()
+    for i in range(60 if not thorough else 600):
+        w, h = rng.randrange(1, 80), rng.randrange(1, 40)
+        ver = rng.randrange(2)
+        H.new()
+        hdr = pg.header("sor", "I", tr=rng.randrange(256), q=rng.randrange(1, 32), w=w, h=h, ver=ver, db=rng.randrange(2),
+                        pei=rbytes(rng, rng.randrange(3)), sc=rng.choice([0, 1]) if w < 256 and h < 256 else 1)
+        H.decode(pg.intra_picture(rng, hdr, big=False, shape="one"))
+        H.op("newreader")
+        H.decode(pg.inter_picture(rng, pg.header("sor", rng.choice(["P", "D"]), tr=rng.randrange(256), q=rng.randrange(1, 32), w=w, h=h,
+                                                 ver=ver, db=rng.randrange(2)), pt=None or "P", big=False, shape="one"))
+    for c in H.cmds:
+        if "pic" in c and c["pic"]["pt"] not in ("I",):
+            c["pic"]["pt"] = c["pic"]["pt"]
+    enc2 = run.encode(H.cmds)
+    run.drive_and_validate(enc2, "TraceDecoder", group=hkey, sample=1)
+    run.evaluations = len(cmds) + len(H.cmds)
+    run.nontrivial = len({json.dumps(c["hdr"], sort_keys=True) for c in cmds})
+    run.notes["per_field_sweep_headers"] = n_sweep
+    run.notes["headers"] = len(cmds)
+    run.assumptions = ["headers with the RPR flag (RPRP follows) or BCI = 1 (a back-channel message follows) are not generated: the "
+                       "decoder reports those Annex N / P structures as unimplemented and the property does not list them",
+                       "ELNUM / RLNUM are generated only with PLUSPTYPE headers"]
+    return run.finish(
+        rule="abstract headers (PictureHeader.tla) encoded by TLC, parsed by the real parser::decode_picture, every public field "
+             "and the bits consumed (probe of the 24 bits that follow) compared by TLC: per-field exhaustive sweeps at two base "
+             "settings - Sorenson: 32 versions, 256 TR, 8 size codes, all 8-bit widths/heights, %s 16-bit sizes, type x deblock, "
+             "32 quantizers, 0..3 PEI bytes; baseline: 32 low PTYPE patterns x 6 formats x 8 high flags, CPM/PSBI, TRB/DBQUANT; "
+             "PLUSPTYPE: all 2^10 OPPTYPE mode patterns, 8 types x MPPTYPE flags, %s CPFMT indications, 16 PAR codes + EPAR, 256 "
+             "CPCFC x 4 ETR, UUI, 4 SSS, CPM/PSBI, 16 x 16 ELNUM/RLNUM under scalability, 8 RPSMF, TRPI/TRP, TRB 3/5 bits; every "
+             "single-marker malformation (must be rejected); UFEP=000 headers after arbitrary previous modes (inheritance); random "
+             "cross products; plus decoded pictures reporting their header and size; distinct = distinct abstract headers"
+             % ("all 65536" if thorough else "1024 stratified", "all 512 x 289" if thorough else "8 x 289 + 512 x 8"))
+
+
 # =========================================================================== C11
 @plan("C11")
 def c11(tier, seed):
@@ -1342,4 +1430,4 @@ def replay(pid, path, seed):
 
 
 REPLAY_MODULE = {"C07": "TraceYuv", "C08": "TraceYuv", "C09": "TraceDeblock", "C16": "TraceDeblock", "C14": "TraceBitReader", "C02": "TraceDecoder", "C03": "TraceDecoder", "C04": "TraceDecoder", "C05": "TraceDecoder", "C15": "TraceDecoder",
-                 "C01": "TraceDecoder", "C17": "TraceDecoder", "C11": "TraceDecoder", "C13": "TraceDecoder", "C10": "TraceRecon", "C12": "TraceRecon"}
+                 "C01": "TraceDecoder", "C17": "TraceDecoder", "C11": "TraceDecoder", "C13": "TraceDecoder", "C10": "TraceRecon", "C12": "TraceRecon", "C06": "TraceHeader"}
